@@ -48,6 +48,7 @@ type Case struct {
 	WithSub    bool      `json:"withsub"`
 	SubBals    [2]uint64 `json:"subbals"` // by role: [adversary, honest]
 	FundKind   string    `json:"fundkind"`
+	PrePay     uint64    `json:"prepay"` // ordinary payment of the adversary to the honest party between the acceptance of the sub-channel proposal and the funding update
 	Crafts     []Craft   `json:"crafts"`
 	Settle     bool      `json:"settle"` // finalise the sub-channel and craft the settlement update
 	SettleKind string    `json:"settlekind"`
@@ -58,7 +59,7 @@ var craftKinds = []string{"none", "none", "actor-honest", "actor-out-of-range", 
 	"version-same", "version+2", "wrong-id", "sum+1", "sum-1", "cols+1", "cols-1", "asset", "backend", "final", "negative",
 	"locked-id", "locked-amount", "locked-imap", "locked-imap-grow", "locked-add", "locked-remove", "locked-swap-amount"}
 
-var fundKinds = []string{"ok", "ok", "debit-wrong-party", "debit-split", "debit-honest-more", "extra-payment", "wrong-amount", "wrong-imap", "touch-other", "no-suballoc"}
+var fundKinds = []string{"ok", "ok", "stale-base", "debit-wrong-party", "debit-split", "debit-honest-more", "extra-payment", "wrong-amount", "wrong-imap", "touch-other", "no-suballoc"}
 var settleKinds = []string{"ok", "ok", "credit-wrong-party", "credit-split", "keep-suballoc", "remove-other", "extra-payment"}
 
 func drawCase(t *rapid.T) Case {
@@ -67,6 +68,9 @@ func drawCase(t *rapid.T) Case {
 	c.WithSub = rapid.IntRange(0, 2).Draw(t, "withsub") != 0
 	c.SubBals = [2]uint64{uint64(rapid.IntRange(0, 12).Draw(t, "subM")), uint64(rapid.IntRange(0, 12).Draw(t, "subH"))}
 	c.FundKind = rapid.SampledFrom(fundKinds).Draw(t, "fundkind")
+	if rapid.Bool().Draw(t, "hasprepay") || c.FundKind == "stale-base" {
+		c.PrePay = uint64(rapid.IntRange(1, 9).Draw(t, "prepay"))
+	}
 	n := rapid.IntRange(1, 6).Draw(t, "ncrafts")
 	for i := 0; i < n; i++ {
 		c.Crafts = append(c.Crafts, Craft{
@@ -517,6 +521,15 @@ func runCase(c Case) *h.Outcome {
 			return fail("harness-handsub", "hand-made sub-channel opening failed: %v", err)
 		}
 		w.subParams, w.subInit = hs.Params, hs.V0.State
+		// optionally the parent moves on between the acceptance of the proposal and
+		// the funding: the adversary pays the honest party (an ordinary, acceptable update)
+		stale := hch.State()
+		if c.PrePay > 0 {
+			if msg, ok := craft(Craft{Kind: "none", Amount: c.PrePay, ToH: true}, stale, w, adv); ok {
+				send(msg)
+				o.Class("sub:parent-update-before-funding")
+			}
+		}
 		// the crafted funding update on the parent
 		cur = hch.State()
 		s := cur.Clone()
@@ -528,6 +541,13 @@ func runCase(c Case) *h.Outcome {
 		ok := true
 		switch c.FundKind {
 		case "ok":
+			debit(mI, bal(sb[0]))
+			debit(hI, bal(sb[1]))
+		case "stale-base": // funding computed from the parent state before the intermediate payment: rolls it back
+			if stale.Version == cur.Version {
+				ok = false
+			}
+			s.Balances = stale.Balances.Clone()
 			debit(mI, bal(sb[0]))
 			debit(hI, bal(sb[1]))
 		case "debit-wrong-party": // the honest party pays everything
@@ -748,7 +768,7 @@ func min64(a, b uint64) uint64 {
 	return b
 }
 
-const rule = "an honest client H (user handler accepts everything) with a ledger channel to an adversary M that holds a valid key: after 0-3 honest updates M optionally opens a sub-channel by hand (raw proposal, parameters recomputed by the harness, own version-0 signature) and sends a crafted parent funding update (correct / debits the wrong party / shifts one unit / extra payment / wrong amount / index map / second foreign sub-allocation / nothing locked), then 1-6 crafted ordinary updates, each an acceptable successor of H's current state with one mutation from a 25-kind alphabet (actor, four signature faults, version, id, sums, dimensions, asset, backend, final, negative, and seven edits of locked sub-allocations with compensated totals), then optionally finalises the sub-channel and sends a crafted settlement update while H's Settle waits for it. Oracle (one-directional): every SigAdded(own index) event of H's persister on the ledger channel is judged by an independent acceptability predicate written from the property text (peer signature over exactly that state, valid successor of H's current state at that moment, sender as actor and locked entries untouched for ordinary updates; for the one sub-channel H takes part in: exactly its sub-allocation added/removed and every participant's balance changed by exactly its balance in the funded/settled sub-channel). non-trivial = the case contains at least one near-miss message"
+const rule = "an honest client H (user handler accepts everything) with a ledger channel to an adversary M that holds a valid key: after 0-3 honest updates M optionally opens a sub-channel by hand (raw proposal, parameters recomputed by the harness, own version-0 signature) and sends a crafted parent funding update (optionally after a further ordinary parent update; correct / computed from the stale parent state / debits the wrong party / shifts one unit / extra payment / wrong amount / index map / second foreign sub-allocation / nothing locked), then 1-6 crafted ordinary updates, each an acceptable successor of H's current state with one mutation from a 25-kind alphabet (actor, four signature faults, version, id, sums, dimensions, asset, backend, final, negative, and seven edits of locked sub-allocations with compensated totals), then optionally finalises the sub-channel and sends a crafted settlement update while H's Settle waits for it. Oracle (one-directional): every SigAdded(own index) event of H's persister on the ledger channel is judged by an independent acceptability predicate written from the property text (peer signature over exactly that state, valid successor of H's current state at that moment, sender as actor and locked entries untouched for ordinary updates; for the one sub-channel H takes part in: exactly its sub-allocation added/removed and every participant's balance changed by exactly its balance in the funded/settled sub-channel). non-trivial = the case contains at least one near-miss message"
 
 func TestCountersign(t *testing.T) {
 	rec := h.Begin("C07", "")
